@@ -100,6 +100,9 @@ def failed_rule(ctx):
             # (a closure capturing the counter mutably shows up as a `&mut self.count` taken where the closure is built)
             cmb = field_mut_borrows(b, 'n_elements_in_block')
             cnt_ok = te is not None and bool(cnt) and all(b.dominates(te[0], bb) for bb, _ in cnt + cmb) and not in_closures
+            # ... and before the size-triggered flush, so that the block that is cut contains the object it counts
+            fins = [fbb for fbb, ft in b.calls() if strip_generics(cname(ft)).endswith('WriterInner::finish_block')]
+            cnt_ok = cnt_ok and all(b.dominates(cbb, fbb) for cbb, _ in cnt for fbb in fins)
             if nm == 'serialize':
                 inc = False
                 for bb, s in cnt:
@@ -162,9 +165,12 @@ def typestate(ctx):
             hs = field_assigns(fb, 'block_header_size')
             ct = field_assigns(fb, 'n_elements_in_block')
             mb = field_mut_borrows(fb, 'block_header_size') + field_mut_borrows(fb, 'n_elements_in_block')
-            after = te is not None and bool(hs) and bool(ct) and all(fb.dominates(te[0], bb) for bb, _ in hs + ct + mb) and te[1] is not None and all_paths_err(fb, te[1])
+            cmb_ = field_mut_borrows(fb, 'n_elements_in_block')
+            # the reset is `count = 0` or a `mem::take(&mut count)`: either way after encode succeeded
+            takes = [bb for bb, t in fb.calls() if strip_generics(cname(t)).endswith(('mem::take', 'mem::replace')) and 'n_elements_in_block' in origin(fb, t['args'][0]).fields]
+            after = te is not None and bool(hs) and (bool(ct) or bool(takes)) and all(fb.dominates(te[0], bb) for bb, _ in hs + ct + mb) and te[1] is not None and all_paths_err(fb, te[1])
             zero = all(const_int(s['rv'].get('op')) == 0 for bb, s in ct if s['rv']['k'] == 'use')
-            order = all(fb.dominates(h[0], c[0]) for h in hs for c in ct)
+            order = all(fb.dominates(h[0], c[0]) for h in hs for c in ct) or bool(takes)
             # only when there is something to write
             guard = False
             for g in cmp_guards(fb, enc[0][0]):
